@@ -221,6 +221,18 @@ func mut(ie *entities.InfoElement, v1, v2 string) string {
 		return "bad-op"
 	}
 	e.GetLength() // a caller may ask before it changes the value
+	// byte-valued elements: the caller keeps the slice it made the element with (several elements may start from one
+	// shared "unset" slice); giving the element another value must not write into that slice
+	var mine, before []byte
+	switch ie.DataType {
+	case entities.OctetArray:
+		mine = e.GetOctetArrayValue()
+	case entities.MacAddress:
+		mine = e.GetMacAddressValue()
+	case entities.Ipv4Address, entities.Ipv6Address:
+		mine = e.GetIPAddressValue()
+	}
+	before = append([]byte(nil), mine...)
 	if v2 == "reset" {
 		e.ResetValue()
 	} else {
@@ -228,6 +240,9 @@ func mut(ie *entities.InfoElement, v1, v2 string) string {
 		if err != nil || !copyValue(e, e2) {
 			return "bad-op"
 		}
+	}
+	if hexs(mine) != hexs(before) {
+		return "caller-slice-changed " + hexs(mine)
 	}
 	buf, l, err := encodeOne(e)
 	if err != nil {
